@@ -213,6 +213,9 @@ def run_check(prop, tier, seed, workers=None, budget_s=None, scale=None, verbose
             return 2
         import traceback
         traceback.print_exc()
+        cause = getattr(e, "__cause__", None)
+        if cause is not None:
+            print(str(cause))
         print("HARNESS: %s: %s" % (type(e).__name__, e))
         return 2
 
